@@ -278,6 +278,10 @@ def push_pop(ctx: Ctx, rule: str) -> None:
             v.rename[sp] = "state_params"
 
         def reference(v, plan=plan):
+            # skipped types and read-only images are not touched by any of the seven operations (the delegated set/get/unset
+            # cannot enforce this: they run on the pinned single object whose type is no longer the full 'nets/vms/images' path)
+            if v["SK"] or (v["IMG"] and v["RO"]):
+                return ("next", ())
             if not v["HAS"] or v["ROOT"]:
                 return ("next", ())
             return ("next", tuple(p[1] for p in plan))
@@ -288,14 +292,15 @@ def push_pop(ctx: Ctx, rule: str) -> None:
         def m_root(t, op=op):
             return (lambda v: v["ROOT"]) if t in ("state in ROOTS", f"state_params['{op}_state'] in ROOTS") else None
 
-        spec = TableSpec({"HAS": B, "ROOT": B}, [m_has, m_root], reference)
+        cm = _common_matchers(op)
+        spec = TableSpec({"HAS": B, "ROOT": B, "SK": B, "IMG": B, "RO": B}, [m_has, m_root, cm[0], cm[1], cm[2]], reference)
 
         def outcome(view, val, free):
             calls = tuple(call_name(c) for i, c in view.calls(lambda c: call_name(c) in ("set_states", "get_states", "unset_states")))
             return (_terminal(view), calls)
 
         table_rule(ctx, rule + op[1], fref, views, spec, outcome,
-                   construct=f"{op}_states: no {op}_state -> skip; root keyword -> skip; else delegate to {', '.join(p[1] for p in plan)}")
+                   construct=f"{op}_states: skipped type or read-only image -> untouched; no {op}_state -> skip; root keyword -> skip; else delegate to {', '.join(p[1] for p in plan)}")
         # parameters prepared for the delegation
         stores = {}
         order = []
@@ -468,6 +473,8 @@ def run(ctx: Ctx) -> None:
 
 
 MUTANTS = [
+    ("push-touches-readonly-image", SETUP, "        if params_obj_type == \"nets/vms/images\" and state_params.get_boolean(\n            \"image_readonly\", False\n        ):\n            logging.warning(\n                f\"Incorrect configuration: cannot use any state \"\n                f\"from readonly image {params_obj_name} - skipping\"\n            )\n            continue\n\n        if not state_params.get(\"push_state\"):",
+     "        if not state_params.get(\"push_state\"):", "5u"),
     ("get-abort-ignored", SETUP, "        if not state_exists and \"a\" == action_if_doesnt_exist:\n            logging.info(\"Aborting because of missing snapshot for setup\")",
      "        if not state_exists and \"i\" == action_if_doesnt_exist:\n            logging.info(\"Aborting because of missing snapshot for setup\")", "1"),
     ("set-reuse-overwrites", SETUP, "            logging.info(\"Keeping the already existing snapshot untouched\")\n            continue", "            logging.info(\"Keeping the already existing snapshot untouched\")", "2"),
